@@ -199,6 +199,24 @@ def viewportref_examples():
     assert V.transform(0, 0, 10, 10, (0, 0, 0, 5)) is None and len(V.ALIGNS) == 10
 
 
+@check
+def lengthref_examples():
+    from fractions import Fraction as F
+    from .ref import lengthref as L
+
+    assert L.resolve(1, "in", {"ppi": 96}) == 96 and L.resolve(2.54, "cm", {"ppi": 96}) == 96 and L.resolve(25.4, "mm", {"ppi": 96}) == 96
+    assert L.resolve(3, "pt") == 4 and L.resolve(1, "pc") == 16 and L.resolve(7, "px") == 7 and L.resolve(7, "") == 7
+    assert L.resolve(1, "in") is None and L.resolve(50, "%") is None and L.resolve(2, "em") is None and L.resolve(1, "vw") is None
+    assert L.resolve(50, "%", {"relative_length": 300}) == 150
+    assert L.resolve(50, "%", {"relative_length": (2, "in"), "ppi": 72}) == 72 and L.resolve(50, "%", {"relative_length": (2, "in")}) is None
+    assert L.resolve(2, "em", {"font_size": 12}) == 24 and L.resolve(2, "ex", {"font_height": 5}) == 10
+    vb = (0, 0, 200, 50)
+    assert L.resolve(10, "vw", {"viewbox": vb}) == 20 and L.resolve(10, "vh", {"viewbox": vb}) == 5 and L.resolve(10, "vmin", {"viewbox": vb}) == 5 and L.resolve(10, "vmax", {"viewbox": vb}) == 20
+    c = L.common("pt", "pc")
+    assert c(12, "pt") == c(1, "pc") and L.common("in", "px") is None and L.common("em", "em") is not None and L.common("em", "ex") is None
+    assert len(L.UNITS) == 14
+
+
 def main():
     failed = 0
     for f in CHECKS:
